@@ -27,11 +27,60 @@ type C19Case struct {
 	Snippets []C19Snippet `json:"snippets"`
 	Global   []string     `json:"global"` // lines of config-defaults in the global ConfigMap
 	Shards   int          `json:"shards"`
+	// Extra: snippets carried by backends that no http path leads to, each alone on its backend:
+	// "tcp-ingress" (an ingress with tcp-service-port) and "default-backend-service" (annotation of the
+	// Service named by --default-backend-service)
+	Extra []C19Snippet `json:"extra,omitempty"`
 }
 
 var c19Pool = []string{"server", "http-request", "acl", "use-server", "timeout", "option"}
 
 func c19Text(s C19Snippet) string { return strings.Join(s.Lines, s.Sep) }
+
+// genC19Snippet draws the lines of one snippet; n numbers the lines of the whole case.
+func genC19Snippet(t *rapid.T, on string, n *int) C19Snippet {
+	sn := C19Snippet{On: on, Sep: rapid.SampledFrom([]string{"\n", "\n", "\r\n"}).Draw(t, "sep")}
+	nl := rapid.IntRange(1, 5).Draw(t, "nlines")
+	for j := 0; j < nl; j++ {
+		*n++
+		base := rapid.SampledFrom(c19Pool).Draw(t, "token")
+		tok := base
+		switch rapid.IntRange(0, 7).Draw(t, "variant") {
+		case 0:
+			tok = base + "s" // keyword as a prefix of another word
+		case 1:
+			tok = base[:len(base)-1] // prefix of the keyword
+		case 2:
+			tok = strings.ToUpper(base[:1]) + base[1:] // case variant
+		}
+		lead := rapid.SampledFrom([]string{"", "", " ", "\t", "  \t ", "\t\t", "\v", "\f"}).Draw(t, "lead")
+		sep := rapid.SampledFrom([]string{" ", " ", "\t", "  ", " \t"}).Draw(t, "tsep")
+		var rest string
+		switch base {
+		case "server":
+			rest = fmt.Sprintf("snip%d 127.0.0.9:%d", *n, 9000+*n)
+		case "http-request":
+			rest = fmt.Sprintf("set-header X-Snip%d v%d", *n, *n)
+		case "acl":
+			rest = fmt.Sprintf("snip%d always_true", *n)
+		case "use-server":
+			rest = fmt.Sprintf("snip%d if FALSE", *n)
+		case "timeout":
+			rest = fmt.Sprintf("tunnel %ds", 100+*n)
+		default:
+			rest = fmt.Sprintf("snip%d", *n)
+		}
+		line := lead + tok + sep + rest
+		if rapid.IntRange(0, 11).Draw(t, "bare") == 0 {
+			line = lead + tok // token alone, keyword followed by end of line
+		}
+		if rapid.IntRange(0, 9).Draw(t, "emptyline") == 0 {
+			sn.Lines = append(sn.Lines, "")
+		}
+		sn.Lines = append(sn.Lines, line)
+	}
+	return sn
+}
 
 func genC19(t *rapid.T) C19Case {
 	c := C19Case{Shards: rapid.SampledFrom([]int{0, 0, 2}).Draw(t, "shards")}
@@ -43,50 +92,15 @@ func genC19(t *rapid.T) C19Case {
 	ns := rapid.IntRange(1, 3).Draw(t, "nsnippets")
 	n := 0
 	for i := 0; i < ns; i++ {
-		sn := C19Snippet{On: places[i], Sep: rapid.SampledFrom([]string{"\n", "\n", "\r\n"}).Draw(t, "sep")}
-		nl := rapid.IntRange(1, 5).Draw(t, "nlines")
-		for j := 0; j < nl; j++ {
-			n++
-			base := rapid.SampledFrom(c19Pool).Draw(t, "token")
-			tok := base
-			switch rapid.IntRange(0, 7).Draw(t, "variant") {
-			case 0:
-				tok = base + "s" // keyword as a prefix of another word
-			case 1:
-				tok = base[:len(base)-1] // prefix of the keyword
-			case 2:
-				tok = strings.ToUpper(base[:1]) + base[1:] // case variant
-			}
-			lead := rapid.SampledFrom([]string{"", "", " ", "\t", "  \t ", "\t\t", "\v", "\f"}).Draw(t, "lead")
-			sep := rapid.SampledFrom([]string{" ", " ", "\t", "  ", " \t"}).Draw(t, "tsep")
-			var rest string
-			switch base {
-			case "server":
-				rest = fmt.Sprintf("snip%d 127.0.0.9:%d", n, 9000+n)
-			case "http-request":
-				rest = fmt.Sprintf("set-header X-Snip%d v%d", n, n)
-			case "acl":
-				rest = fmt.Sprintf("snip%d always_true", n)
-			case "use-server":
-				rest = fmt.Sprintf("snip%d if FALSE", n)
-			case "timeout":
-				rest = fmt.Sprintf("tunnel %ds", 100+n)
-			default:
-				rest = fmt.Sprintf("snip%d", n)
-			}
-			line := lead + tok + sep + rest
-			if rapid.IntRange(0, 11).Draw(t, "bare") == 0 {
-				line = lead + tok // token alone, keyword followed by end of line
-			}
-			if rapid.IntRange(0, 9).Draw(t, "emptyline") == 0 {
-				sn.Lines = append(sn.Lines, "")
-			}
-			sn.Lines = append(sn.Lines, line)
-		}
-		c.Snippets = append(c.Snippets, sn)
+		c.Snippets = append(c.Snippets, genC19Snippet(t, places[i], &n))
 	}
 	if rapid.Bool().Draw(t, "global") {
 		c.Global = []string{"timeout tunnel 77s", "option dontlog-normal"}
+	}
+	for _, on := range []string{"tcp-ingress", "default-backend-service"} {
+		if chanceT(t, "extra-"+on, 30) {
+			c.Extra = append(c.Extra, genC19Snippet(t, on, &n))
+		}
 	}
 	return c
 }
@@ -115,7 +129,23 @@ func c19World(c C19Case) []*world.Obj {
 			ing[sn.On].Ann = map[string]string{"config-backend": c19Text(sn)}
 		}
 	}
-	return append(objs, ing["ingress1"], ing["ingress2"])
+	objs = append(objs, ing["ingress1"], ing["ingress2"])
+	for _, sn := range c.Extra {
+		switch sn.On {
+		case "tcp-ingress":
+			objs = append(objs,
+				&world.Obj{Kind: world.KService, NS: "a", Name: "s2", Ports: []world.SvcPort{{Name: "http", Port: 80, Target: "8080"}}},
+				&world.Obj{Kind: world.KEndpoints, NS: "a", Name: "s2", Subsets: []world.Subset{{Ready: []world.Addr{{IP: "10.1.2.1"}}, Ports: []world.SvcPort{{Name: "http", Port: 8080}}}}},
+				&world.Obj{Kind: world.KIngress, NS: "a", Name: "i3", Created: 3, ClassName: sp(world.OurClass),
+					Ann:   map[string]string{"tcp-service-port": "7000", "config-backend": c19Text(sn)},
+					Rules: []world.Rule{{Host: "h3.local", Paths: []world.Path{{Path: "/", Type: "Prefix", Svc: "s2", Port: "80"}}}}})
+		case "default-backend-service":
+			objs = append(objs,
+				&world.Obj{Kind: world.KService, NS: "a", Name: "s3", Ann: map[string]string{"config-backend": c19Text(sn)}, Ports: []world.SvcPort{{Name: "http", Port: 80, Target: "8080"}}},
+				&world.Obj{Kind: world.KEndpoints, NS: "a", Name: "s3", Subsets: []world.Subset{{Ready: []world.Addr{{IP: "10.1.3.1"}}, Ports: []world.SvcPort{{Name: "http", Port: 8080}}}}})
+		}
+	}
+	return objs
 }
 
 func strictFirst(line string) string {
@@ -148,10 +178,10 @@ func c19Verdict(keywords []string, sn C19Snippet) string {
 	text := c19Text(sn)
 	mustDrop, mayDrop := false, false
 	for _, line := range strings.Split(text, "\n") {
-		if kw[strictFirst(strings.TrimRight(line, "\r"))] && !strings.ContainsAny(strictFirst(line), "\r\v\f") {
-			mustDrop = true
-		}
+		// HAProxy splits words at any isspace() character (blank, tab, CR, VT, FF): a line whose first word in
+		// that sense is a disabled keyword is that directive for HAProxy, whatever blanks surround it
 		if kw[liberalFirst(line)] {
+			mustDrop = true
 			mayDrop = true
 		}
 	}
@@ -170,7 +200,13 @@ func lineKey(line string) string { return strings.Join(hapcfg.Tokenize(line), " 
 func execC19(c C19Case) *Failure {
 	st := getStats("C19")
 	objs := c19World(c)
-	s, steps, err := freshSim(ctlsim.Params{DisableKeywords: c.Keywords, Shards: c.Shards}, objs)
+	params := ctlsim.Params{DisableKeywords: c.Keywords, Shards: c.Shards}
+	for _, sn := range c.Extra {
+		if sn.On == "default-backend-service" {
+			params.DefaultBackend = "a/s3"
+		}
+	}
+	s, steps, err := freshSim(params, objs)
 	if err != nil {
 		panic(err)
 	}
@@ -234,10 +270,42 @@ func execC19(c C19Case) *Failure {
 			}
 		}
 	}
+	// snippets on backends without an http path: each is alone on its backend
+	for _, sn := range c.Extra {
+		name := map[string]string{"tcp-ingress": "a_s2_8080", "default-backend-service": "a_s3_8080"}[sn.On]
+		be2 := cfg.Backend(name)
+		if be2 == nil {
+			return failf("C19:no-backend", "backend %s (%s) was not written", name, sn.On)
+		}
+		has := map[string]bool{}
+		for _, l := range be2.Lines {
+			has[strings.Join(l.Tok, " ")] = true
+		}
+		v := c19Verdict(c.Keywords, sn)
+		verdicts[sn.On] = v
+		found, total := 0, 0
+		for _, line := range sn.Lines {
+			if k := lineKey(line); k != "" {
+				total++
+				if has[k] {
+					found++
+				}
+			}
+		}
+		if v == "drop" && found > 0 {
+			return failf("C19:disabled-keyword-emitted", "keywords %q are disabled; the %s snippet %q must be dropped as a whole, but %d of its %d lines are in backend %s", c.Keywords, sn.On, c19Text(sn), found, total, name)
+		}
+		if v == "keep" && found != total {
+			return failf("C19:clean-snippet-dropped", "keywords %q: the %s snippet %q has no disabled first token but only %d of its %d lines are in backend %s", c.Keywords, sn.On, c19Text(sn), found, total, name)
+		}
+		if v == "drop" {
+			nontrivial = true
+		}
+	}
 	// must keep: if every candidate is clean, a snippet must be there
 	allKeep := true
-	for _, v := range verdicts {
-		if v != "keep" {
+	for _, sn := range c.Snippets {
+		if verdicts[sn.On] != "keep" {
 			allKeep = false
 		}
 	}
